@@ -71,6 +71,10 @@ Qed.
 
 End Top.
 
+Lemma lex_run_at_file uni_letter uni_digit fuel s :
+  lex_run_at uni_letter uni_digit 0 fuel false s = run uni_letter uni_digit s (Z.of_nat (length s)) 0 fuel LText lex_init.
+Proof. reflexivity. Qed.
+
 (* lex(name, T): the whole input is one stretch of text *)
 Theorem lex_body_items (uni_letter uni_digit : Z -> bool) :
   uni_letter (-1) = false -> uni_digit (-1) = false ->
@@ -82,7 +86,8 @@ Proof.
   { unfold span, lex_init. cbn [l_start l_pos length]. repeat split; try lia. }
   destruct (lex_text_body uni_letter uni_digit T (length T) T (le_n _) lex_init pcs Hs0 Hpl Hpc) as (k & l' & items & Hst & Ho & Hsh).
   destruct (lex_total_linear uni_letter uni_digit Hl Hd 0 ltac:(lia) false T) as (lf & Hr & _).
-  assert (E : lf = l') by exact (run_unique uni_letter uni_digit T 0 (lex_budget T) k LText lex_init lf l' Hr Hst).
+  pose proof Hr as Hr'. rewrite lex_run_at_file in Hr'.
+  pose proof (run_unique uni_letter uni_digit T 0 (lex_budget T) k LText lex_init lf l' Hr' Hst) as E.
   exists items. split; [|exact Hsh]. unfold lex_items, lex_run. rewrite Hr. cbn [bind]. subst lf. rewrite Ho.
   cbn [lex_init l_out]. rewrite app_nil_r, rev_involutive. reflexivity.
 Qed.
